@@ -141,9 +141,15 @@ func mkRecipients(spec string) []*cose.Recipient {
 			rc.Protected = cose.Headers{}
 			rc.Ciphertext = []byte{1, 2, 3}
 		}
-		if i == 0 && strings.HasSuffix(spec, "s") {
+		if strings.HasSuffix(spec, "n") { // unprotected buckets left nil (the encoder must still write an empty map)
+			rc.Unprotected = nil
+		}
+		if i == 0 && (strings.HasSuffix(spec, "s") || strings.HasSuffix(spec, "n")) {
 			sub := &cose.Recipient{Protected: cose.Headers{iana.HeaderParameterAlg: iana.AlgorithmA128KW},
 				Unprotected: cose.Headers{"x": "y"}, Ciphertext: []byte{9}}
+			if strings.HasSuffix(spec, "n") {
+				sub.Unprotected = nil
+			}
 			if err := rc.AddRecipient(sub); err != nil {
 				panic(err)
 			}
@@ -206,6 +212,27 @@ var typedCodec = payloadCodec[key.CoseMap]{
 			return "nil"
 		}
 		b, err := m.MarshalCBOR()
+		if err != nil {
+			return "unencodable"
+		}
+		return hx(b)
+	},
+}
+
+// a payload of a plain Go map type (no MarshalCBOR of its own): the library's encoder options alone decide its bytes
+var goMapCodec = payloadCodec[map[any]any]{
+	mk: func(t []string) map[any]any {
+		if len(t) == 1 && t[0] == "nil" {
+			return nil
+		}
+		v, _ := parseVal(t, 0)
+		return map[any]any(v.(key.CoseMap))
+	},
+	dump: func(m map[any]any) string {
+		if m == nil {
+			return "nil"
+		}
+		b, err := key.MarshalCBOR(m)
 		if err != nil {
 			return "unencodable"
 		}
@@ -505,6 +532,22 @@ func dispatchMode(a *msgArgs, produce bool) string {
 			return produceT(typedCodec, a)
 		}
 		return consumeT(typedCodec, a)
+	case "gomap":
+		if !produce {
+			return consumeT(typedCodec, a)
+		}
+		// Go's map iteration order is random: encode several times, every encoding must be the same
+		first := produceT(goMapCodec, a)
+		if a.isRandom || !strings.HasPrefix(first, "ok") {
+			return first
+		}
+		for i := 0; i < 7; i++ {
+			b := *a
+			if again := produceT(goMapCodec, &b); again != first {
+				return "NONDETERMINISTIC " + first + " VERSUS " + again
+			}
+		}
+		return first
 	}
 	return "bad-op"
 }
